@@ -23,6 +23,18 @@ T = {
     "C13": (True, "exploration", "two-phase reference semantics vs get_initial_conditions / Simulator.y0 / argument table / classification, with icontract postconditions on Model entry points",
             "IA-heavy generated models: initial conditions, assignment-defined parameters, derived-parameter classification, frozen-vs-recomputed values at random (state,time) and the first row of a simulation are compared with the reference; sensitivity guard counts only cases where a wrong phase would change a number.",
             "Trusted: mon/refmodel two-phase evaluator; functions non-constant in each argument."),
+    "C04": (True, "exploration", "history checker: sequential specification of the simulator's bookkeeping + closed-form (expm) piecewise solution, checked after every operation",
+            "Random histories of Simulator operations (legal and illegal continuations, overlapping time-point arrays, overrides, parameter changes, steady-state runs, protocols, clearing) on linear networks; index monotonicity, containment of requested points, per-row states vs the exact solution from the previous segment's final state, raw_parameters per segment and refusal exactly when the end is not later than the time reached.",
+            "Trusted: scipy.linalg.expm closed form, mon/simhist.py specification; sensitivity guard counts only segments where restart/stale-parameter/offset mistakes would move the state by >100x tolerance."),
+    "C10": (True, "exploration", "reference evaluator applied to every reported row under the segment's parameters; each Simulation view read twice in random order with all flag / normalise shapes",
+            "Multi-segment results with parameters changed between segments and again afterwards; every view method x flags x concatenated x normalise shape compared with the reference, N*v = dx/dt on reported frames, producers/consumers by coefficient sign, repeated reads identical.",
+            "Trusted: mon/refmodel.py; computed coefficients depend on parameters only and keep their sign."),
+    "C14": (True, "exploration", "C04's sequential specification + closed form, manual update+simulate twin, exact index arithmetic on dyadic times, fluxes with the step's values",
+            "Protocols of 1..6 steps on fresh and continued simulators; plain and time-course forms with grids on/between/beyond boundaries, relative and absolute; each step's interval is compared with the closed-form solution under that step's values and with a second simulator driven manually.",
+            "Trusted: expm closed form; protocols name the same parameters in every step."),
+    "C15": (True, "exploration", "analytic steady state (numpy.linalg.solve) vs reported state and flux balance; unambiguous no-steady-state networks must yield a failure value",
+            "Stable linear networks x initial values x tolerances x norm modes through Simulator and scan.steady_state; linear growth, accumulation, exponential growth and undamped oscillators must be reported as failure.",
+            "Trusted: analytic solution; bound 10*tol+1e-4*scale on success; failure is accepted for networks that have a steady state."),
 }
 PENDING_REASON = "check not built yet in this session (work in progress; design in DESIGN.md section 4)"
 
